@@ -3,7 +3,8 @@
 Every case is generated as AST + text together (printer below).  The text goes
 to the real importer, the imported block is simulated with pyrtl.Simulation and
 its Output traces are compared with
-  (tie)    the Coq model of the importer   (IO/BlifImport.v, IO/Iscas.v; tables from Gen/BlifTables.v)
+  (tie)    the Coq model of the importer   (IO/BlifImport.v, IO/Iscas.v; tables from Gen/BlifTables.v) and the
+           name-resolution model over numbered wires (IO/BlifLow.v; Subcircuit's dictionaries from Gen/BlifNames.v)
   (spec)   the Coq BLIF / .bench semantics (IO/BlifSem.v, IO/Iscas.v), and
   (search) an independent plain-Python evaluator of the same AST (hierarchical,
            denotational: sub-circuit instances keep their own state; cell names
@@ -56,7 +57,8 @@ TRUSTED = [
     'IO/BlifSem.v: BLIF semantics (on-set covers, .latch init codes, $_DFF/$_SDFF cells decoded from their names '
     'per the Yosys cell library, .subckt = renamed copy with formals tied to actuals); IO/Iscas.v gate_sem',
     'py/checks/C12.py: BLIF/.bench printers (AST -> text) and the independent Python evaluator',
-    'py/genfrag_C12.py: translator of flop_next / dff_names / latch init map / cover literals / ISCAS dispatch',
+    'py/genfrag_C12.py: translator of flop_next / dff_names / latch init map / cover literals / ISCAS dispatch / '
+    'class Subcircuit (which dictionary each add_* method and twire reads and writes) / the register-name suffix',
 ]
 ASSUMPTIONS = [
     'one global positive-edge clock (named clk or given as clock_name), optionally through one clock buffer '
@@ -68,6 +70,10 @@ ASSUMPTIONS = [
     'unconstrained initial values (latch init 2/3, $_DFF cells, .bench DFF) resolve to 0 (Simulation default_value)',
     '.bench: INPUT/OUTPUT declarations precede gate definitions; input and output names are distinct',
     'the pyparsing grammars themselves are not modelled (a mis-parse surfaces as a trace disagreement)',
+    'IO/BlifLow.v (name resolution: twire, per-instance dictionaries, output indirection, register keys) is tied to '
+    'IO/BlifImport.v (wires identified with net names, the model the refinement theorems are about) by evaluation on '
+    'every generated BLIF case, not by a theorem; its independence of net names IS a theorem '
+    '(C12_import_invariant_under_renaming)',
 ]
 
 PL = {'0': 'P0', '1': 'P1', '-': 'PD'}
